@@ -51,6 +51,9 @@ instance : Monad Res where
     | .err e => .err e
     | .panic m => .panic m
 
+def Res.map' {α β : Type} (r : Res α) (f : α → β) : Res β :=
+  match r with | .ok a => .ok (f a) | .err e => .err e | .panic m => .panic m
+
 def Res.isPanic : Res α → Bool
   | .panic _ => true
   | _ => false
